@@ -41,7 +41,7 @@ import (
 // ops that reach driver goroutines
 func isChildOp(op string) bool {
 	switch strings.SplitN(op, " ", 2)[0] {
-	case "hs", "hsnoauth", "disclose", "hsx", "newsession", "nocred", "disclose2", "sesscfg", "mon", "tlsx", "tlscred":
+	case "hs", "hsnoauth", "disclose", "hsx", "newsession", "nocred", "disclose2", "sesscfg", "mon", "tlsx", "tlscred", "sessx", "sessauth":
 		return true
 	}
 	return false
@@ -206,6 +206,7 @@ func (c tcpConn) RemoteAddr() net.Addr { return c.remote }
 // refused without a trace.
 type scriptedDialer struct {
 	script []string
+	byHost map[string][]string // if set: the script of the node at each host (hostID)
 	once   bool
 	mu     sync.Mutex
 	dials  int
@@ -221,11 +222,18 @@ func (d *scriptedDialer) DialHost(ctx context.Context, host *gocql.HostInfo) (*g
 		return nil, errors.New("verif: only one dial is served")
 	}
 	emit("D", hostID(host))
+	script := d.script
+	if d.byHost != nil {
+		var ok bool
+		if script, ok = d.byHost[hostID(host)]; !ok {
+			return nil, errors.New("verif: no node at " + hostID(host))
+		}
+	}
 	cli, srv := net.Pipe()
 	d.wg.Add(1)
 	go func() {
 		defer d.wg.Done()
-		servePeer(srv, d.script)
+		servePeer(srv, script)
 	}()
 	return &gocql.DialedHost{Conn: tcpConn{cli, &net.TCPAddr{IP: net.IPv4(10, 0, 0, 1), Port: 9042}}}, nil
 }
@@ -277,8 +285,10 @@ func servePeer(c net.Conn, script []string) {
 
 // scenario = what one child op runs
 type scenario struct {
-	mode   string // startup (VerifStartup: ConnConfig.Authenticator directly) | connect (VerifConnect) | newsession | tls
+	mode   string // startup (VerifStartup: ConnConfig.Authenticator directly) | connect (VerifConnect) | newsession | tls | sess
 	tls    tlsScenario
+	nodes  map[string][]string // sess: host → script of its node
+	dials  []string            // sess: p<h> (pool connection) | c<h> (control-connection dial), in order
 	host   int
 	static string
 	prov   string
@@ -318,6 +328,39 @@ func parseScenario(op string) scenario {
 		}
 		return scenario{mode: "tls", static: w[4], prov: "-", script: []string{"sup", "auth:" + w[5], "succ"},
 			tls: tlsScenario{cfg: w[1], ehv: w[2] == "1", ca: w[3], certs: map[string]string{"a": w[6], "b": w[7]}, dials: w[8:]}}
+	case "sessx", "sessauth":
+		// static=<auth> prov=<provider> n<h>=<class hex|rdy>… <p|c><h>…
+		sc := scenario{mode: "sess", static: kv(w[1], "static"), prov: kv(w[2], "prov"), nodes: map[string][]string{}}
+		for _, x := range w[3:] {
+			switch {
+			case x[0] == 'n':
+				e := strings.SplitN(x[1:], "=", 2)
+				if len(e) != 2 {
+					panic("bad node " + x)
+				}
+				if _, err := strconv.Atoi(e[0]); err != nil {
+					panic("bad node " + x)
+				}
+				if e[1] == "rdy" {
+					sc.nodes[e[0]] = []string{"sup", "rdy"}
+				} else {
+					sc.nodes[e[0]] = []string{"sup", "auth:" + e[1], "succ"}
+				}
+			case x[0] == 'p' || x[0] == 'c':
+				if h, err := strconv.Atoi(x[1:]); err != nil || h < 1 || h > 254 {
+					panic("bad dial " + x)
+				}
+				sc.dials = append(sc.dials, x)
+			default:
+				panic("bad sess word " + x)
+			}
+		}
+		for _, d := range sc.dials {
+			if sc.nodes[d[1:]] == nil {
+				panic("dial without node " + d)
+			}
+		}
+		return sc
 	case "disclose2":
 		h, err := strconv.Atoi(kv(w[1], "host"))
 		if err != nil {
@@ -340,7 +383,40 @@ func runScenario(sc scenario) (outcome string) {
 	for _, f := range sc.script {
 		frameFor(f) // validate before anything runs
 	}
+	for _, scr := range sc.nodes {
+		for _, f := range scr {
+			frameFor(f)
+		}
+	}
 	switch sc.mode {
+	case "sess":
+		// ONE session configuration (Session.cfg, Session.connCfg = connConfig(&cfg)), several connections through it:
+		// pool connections (Session.connect: the shared *ConnConfig) and control-connection dials
+		// (controlConn.discoverProtocol: a copy of it), one after the other
+		d := &scriptedDialer{byHost: sc.nodes}
+		cfg := gocql.NewCluster("10.0.0.1")
+		cfg.ProtoVersion, cfg.ConnectTimeout, cfg.Timeout = 4, driverTimeout, driverTimeout
+		cfg.Logger = discardLogger
+		cfg.HostDialer = d
+		cfg.Authenticator = mkAuth(sc.static)
+		cfg.AuthProvider = mkProvider(sc.prov)
+		sess, err := gocql.VerifNewSess(cfg)
+		if err != nil {
+			return "err:config"
+		}
+		for _, dl := range sc.dials {
+			h, _ := strconv.Atoi(dl[1:])
+			emit("N", dl)
+			var err error
+			if dl[0] == 'p' {
+				err = sess.Connect("", net.IPv4(10, 0, 0, byte(h)), 9042)
+			} else {
+				err = sess.ControlDial("", net.IPv4(10, 0, 0, byte(h)), 9042)
+			}
+			d.wg.Wait()
+			emit("O", classify(err))
+		}
+		return "done"
 	case "startup":
 		cli, srv := net.Pipe()
 		done := make(chan struct{})
@@ -674,6 +750,8 @@ func format(op string, r raw) string {
 		return monitor(parseScenario(op), r)
 	case "tlsx", "tlscred":
 		return formatTLS(w[0], r)
+	case "sessx", "sessauth":
+		return formatSess(w[0], r)
 	case "hsnoauth":
 		return pre + ready + " credentials-sent=" + credSent(r)
 	case "nocred":
@@ -1130,6 +1208,63 @@ func formatTLS(op string, r raw) string {
 			}
 		}
 		out = append(out, fmt.Sprintf("%s proceeded=%s cred=%s", d.name, proceeded, cred))
+	}
+	return strings.Join(out, " | ")
+}
+
+// formatSess: per connection of the session `<dial> sent=… calls=… prov=… outcome=…` (sessx) or
+// `<dial> prov=… tok=<first AUTH_RESPONSE token the node received | none> ready|refused` (sessauth)
+func formatSess(op string, r raw) string {
+	if r.fatal != "" {
+		return r.fatal
+	}
+	if r.outcome != "done" {
+		return r.outcome
+	}
+	type dial struct {
+		name, outcome     string
+		sent, calls, prov []string
+	}
+	var ds []*dial
+	for _, l := range r.ev {
+		k, p := l[:1], l[2:]
+		if k == "N" {
+			ds = append(ds, &dial{name: p})
+			continue
+		}
+		if len(ds) == 0 {
+			continue
+		}
+		d := ds[len(ds)-1]
+		switch k {
+		case "S":
+			d.sent = append(d.sent, p)
+		case "C":
+			d.calls = append(d.calls, p)
+		case "P":
+			d.prov = append(d.prov, p)
+		case "O":
+			d.outcome = p
+		}
+	}
+	var out []string
+	for _, d := range ds {
+		if op == "sessx" {
+			out = append(out, fmt.Sprintf("%s sent=%s calls=%s prov=%s outcome=%s", d.name, list(d.sent), list(d.calls), list(d.prov), d.outcome))
+			continue
+		}
+		tok := "none"
+		for _, s := range d.sent {
+			if strings.HasPrefix(s, "authresp:") {
+				tok = s[len("authresp:"):]
+				break
+			}
+		}
+		ready := "refused"
+		if d.outcome == "ready" {
+			ready = "ready"
+		}
+		out = append(out, fmt.Sprintf("%s prov=%s tok=%s %s", d.name, list(d.prov), tok, ready))
 	}
 	return strings.Join(out, " | ")
 }
